@@ -54,17 +54,18 @@ def gen_ops(ctx):
     # ---- BMP
     seeds = G.bmp_seeds(r, th)
     for i, (tag, b, native, dims) in enumerate(seeds):
-        plan.add("bmp", tag + ":valid", b, native, dims, full=(i % 16 == 0 or th))
+        plan.add("bmp", tag + ":valid", b, native, dims, full=(i % (4 if th else 16) == 0))
     for i, (tag, b, native, dims) in enumerate(seeds):
-        if th or dims == (2, 2): cuts = G.truncations(b, r, True)          # every truncation point
+        if dims == (2, 2) or (th and dims in ((1, 1), (3, 2), (5, 1))): cuts = G.truncations(b, r, True)          # every truncation point
+        elif th: cuts = G.truncations(b, r, False)
         else: cuts = [("trunc:%d" % k, b[:k]) for k in sorted({r.below(len(b)) for _ in range(6)})]
         for (m, x) in cuts:
-            plan.add("bmp", tag + ":" + m, x, native, dims, n_variants=1 if not th else 4)
+            plan.add("bmp", tag + ":" + m, x, native, dims, n_variants=1 if not th else 2)
     for i, (tag, b, native, dims) in enumerate(seeds):
         if not th and dims != (3, 2): continue
         for (m, x) in G.field_mutations(b, G.BMP_FIELDS, G.BMP_EXTRA):
             if not th and r.chance(3, 4) and not any(k in tag for k in ("bmp24", "bmp8p_h40_c0", "bmprle8", "bmp16bf565")): continue
-            plan.add("bmp", tag + ":" + m, x, native, dims, n_variants=1 if not th else 3)
+            plan.add("bmp", tag + ":" + m, x, native, dims, n_variants=1 if not th else 2)
     for (tag, b, native, dims) in seeds:
         off = int.from_bytes(b[10:14], "little")
         start = 54 if ("p_h" in tag or "rle" in tag or "bf" in tag) else off      # palette / masks / run lengths
@@ -75,14 +76,15 @@ def gen_ops(ctx):
     # ---- PNM
     seeds = G.pnm_seeds(r, th)
     for i, (tag, b, native, dims) in enumerate(seeds):
-        plan.add("pnm", tag + ":valid", b, native, dims, full=(i % 16 == 0 or th))
+        plan.add("pnm", tag + ":valid", b, native, dims, full=(i % (4 if th else 16) == 0))
     for i, (tag, b, native, dims) in enumerate(seeds):
-        if th or dims == (2, 2): cuts = G.truncations(b, r, True)
+        if dims == (2, 2) or (th and dims in ((1, 1), (3, 2), (5, 1))): cuts = G.truncations(b, r, True)
+        elif th: cuts = G.truncations(b, r, False)
         else: cuts = [("trunc:%d" % k, b[:k]) for k in sorted({r.below(len(b)) for _ in range(6)})]
-        for (m, x) in cuts: plan.add("pnm", tag + ":" + m, x, native, dims, n_variants=1 if not th else 4)
+        for (m, x) in cuts: plan.add("pnm", tag + ":" + m, x, native, dims, n_variants=1 if not th else 2)
     for i, (tag, b, native, dims) in enumerate(seeds):
         if not th and dims != (3, 2): continue
-        for (m, x) in G.pnm_mutations(b, r, th): plan.add("pnm", tag + ":" + m, x, native, dims, n_variants=1 if not th else 3)
+        for (m, x) in G.pnm_mutations(b, r, th): plan.add("pnm", tag + ":" + m, x, native, dims, n_variants=1 if not th else 2)
     for (tag, b, native, dims) in seeds:
         start = min(len(b) - 1, 12)
         for (m, x) in G.tail_corruptions(b, start, r, 3 if th else 1): plan.add("pnm", tag + ":" + m, x, native, dims, n_variants=1 if not th else 2)
@@ -90,14 +92,15 @@ def gen_ops(ctx):
     # ---- TARGA
     seeds = G.tga_seeds(r, th)
     for i, (tag, b, native, dims) in enumerate(seeds):
-        plan.add("tga", tag + ":valid", b, native, dims, full=(i % 10 == 0 or th))
+        plan.add("tga", tag + ":valid", b, native, dims, full=(i % (4 if th else 10) == 0))
     for i, (tag, b, native, dims) in enumerate(seeds):
-        if th or dims == (2, 2): cuts = G.truncations(b, r, True)
+        if dims == (2, 2) or (th and dims in ((1, 1), (3, 2), (5, 1))): cuts = G.truncations(b, r, True)
+        elif th: cuts = G.truncations(b, r, False)
         else: cuts = [("trunc:%d" % k, b[:k]) for k in sorted({r.below(len(b)) for _ in range(8)})]
-        for (m, x) in cuts: plan.add("tga", tag + ":" + m, x, native, dims, n_variants=1 if not th else 4)
+        for (m, x) in cuts: plan.add("tga", tag + ":" + m, x, native, dims, n_variants=1 if not th else 2)
     for i, (tag, b, native, dims) in enumerate(seeds):
         if not th and dims != (3, 2): continue
-        for (m, x) in G.field_mutations(b, G.TGA_FIELDS, G.TGA_EXTRA): plan.add("tga", tag + ":" + m, x, native, dims, n_variants=1 if not th else 3)
+        for (m, x) in G.field_mutations(b, G.TGA_FIELDS, G.TGA_EXTRA): plan.add("tga", tag + ":" + m, x, native, dims, n_variants=1 if not th else 2)
     for (tag, b, native, dims) in seeds:
         for (m, x) in G.tail_corruptions(b, min(18, len(b) - 1), r, 3 if th else 2): plan.add("tga", tag + ":" + m, x, native, dims, n_variants=1 if not th else 2)
         for (m, x) in G.random_mutations(b, r, 12 if th else 4): plan.add("tga", tag + ":" + m, x, native, dims, n_variants=1 if not th else 2)
